@@ -205,6 +205,8 @@ def run(ctx):
                 try:
                     V, P, W = world(h, names)
                     pre = snapshot(V)
+                    h.w.steps = 0
+                    h.w.step_budget = max(h.w.step_budget, 4000 * size + 400000)       # an n x n matrix costs n * n steps and more
                     want_members, want = [], {kk: {"links": list(v["links"]), "universes": list(v["universes"])} for kk, v in pre.items()}
                     if shape == "matrix":
                         side = names[:size]
@@ -233,7 +235,13 @@ def run(ctx):
                     res.undecide(f"builders at size {size} ({shape}, {lt}): {u}")
                     continue
                 k += 1
-                why = compare(out, V, want, want_members, h) or readback(h, V, want, lt) or prior_universe(W, names)
+                sample = None if size <= 16 else set(names[:4] + names[size // 2:size // 2 + 2] + names[-3:])
+                try:
+                    why = compare(out, V, want, want_members, h) or readback(h, V, want, lt, only=sample) or prior_universe(W, names)
+                except Unknown as u:
+                    res.ob(False)
+                    res.undecide(f"builders at size {size} ({shape}, {lt}), reading the result back: {u}")
+                    continue
                 res.ob(why is None, sig=("scale", size, shape, lt))
                 if why:
                     res.violation("BUILD-SCALE", MAT_FN if shape == "matrix" else DICT_FN, f"shape={shape},size={size},linktype={lt}",
@@ -248,13 +256,17 @@ def run(ctx):
     res.explanation = "Bounded exhaustive abstract evaluation of both builders against the reference builder; every mismatch is a concrete input."
 
 
-def readback(h, V, want, lt):
-    """Reading the result back with neighbors() reproduces the input adjacency (its symmetric closure for an undirected type)."""
+def readback(h, V, want, lt, only=None):
+    """Reading the result back with neighbors() reproduces the input adjacency (its symmetric closure for an undirected type).
+    only: the vertices whose answers are read (all when None; the big inputs of the scale rows read a sample)."""
     from rules import c04
     nb = h.fn(c04.FN)
     fl = h.fn("edgegraph.traversal.helpers.find_links")
     C = c04.consts(h)
     for n, v in V.items():
+        if only is not None and n not in only:
+            continue
+        h.w.steps = 0
         exp = []
         for cls, (p, q) in want[n]["links"]:
             if cls == "UnDirectedEdge" or cls == "SymTwo":
@@ -266,6 +278,9 @@ def readback(h, V, want, lt):
         if got != exp:
             return f"reading back neighbors({n}) gives {got}, the input adjacency (plus prior links) gives {exp}"
         for m_, w in V.items():
+            if only is not None and m_ not in only and m_ not in exp:
+                continue
+            h.w.steps = 0
             fo = h.call(fl, v, w, True, C["NEIGHBOR"])
             cnt = len(fo.value.items) if fo.kind == "return" and hasattr(fo.value, "items") else repr(fo)
             if cnt != exp.count(m_):
